@@ -335,12 +335,19 @@ func (fr *Frame) callContract(fn *ssa.Function, c *Contract, args []*SVal, rt ty
 		fr.cur = fr.cur.clone()
 		for _, m := range c.Modifies {
 			names := fr.resolveModifies(m, env)
+			cell := fr.modCell(m, env)
 			for _, n := range names {
 				srt := fr.cur.sorts[n]
 				if srt == "" {
 					continue
 				}
-				fr.cur.m[n] = x.em.Fresh(n+".call", srt)
+				if cell != "" && strings.HasPrefix(srt, "(Array Int ") {
+					// only one cell of the heap may change
+					cs := srt[len("(Array Int ") : len(srt)-1]
+					fr.cur.m[n] = x.em.Def(n+".call", srt, sStore(x.heapGet(fr.cur, n, srt), cell, x.em.Fresh(n+".cell", cs)))
+				} else {
+					fr.cur.m[n] = x.em.Fresh(n+".call", srt)
+				}
 				if x.discover {
 					for _, l := range x.curLoops {
 						x.loopMods[l][n] = true
